@@ -21,7 +21,13 @@ pub(super) struct OwnershipRelationships {
 
 impl OwnershipRelationships {
     /// Bootstrap the relationship map from the underlying call graph.
-    pub(super) fn compute(call_graph: &RawCallGraph) -> Self {
+    ///
+    /// `node2captured_nodes` tells us, for each node, which nodes its output holds a reference to:
+    /// whoever uses that output keeps those references alive, i.e. it borrows from the captured nodes too.
+    pub(super) fn compute(
+        call_graph: &RawCallGraph,
+        node2captured_nodes: &HashMap<NodeIndex, IndexSet<NodeIndex>>,
+    ) -> Self {
         let mut self_ = Self::default();
         for edge_index in call_graph.edge_indices() {
             let (source, target) = call_graph.edge_endpoints(edge_index).unwrap();
@@ -37,6 +43,20 @@ impl OwnershipRelationships {
                     self_.node(target).consumes(source);
                 }
                 CallGraphEdgeMetadata::HappensBefore => {}
+            }
+        }
+        for edge_index in call_graph.edge_indices() {
+            if call_graph[edge_index] == CallGraphEdgeMetadata::HappensBefore {
+                continue;
+            }
+            let (source, target) = call_graph.edge_endpoints(edge_index).unwrap();
+            let Some(captured) = node2captured_nodes.get(&source) else {
+                continue;
+            };
+            for &captured_index in captured {
+                if captured_index != target {
+                    self_.node(target).borrows(captured_index);
+                }
             }
         }
         self_
